@@ -11,8 +11,10 @@ import EmbitModel.Proofs.KeyToyCurve
   C17, second part — the text parsers, the Liquid parsers and the key parsers.
 
   1. Descriptor / miniscript / taptree (`Model/Descriptor.lean`, the character-level model that C12 ties to embit):
-     the recursion ends by itself (the model's fuel `|text| + 1` is never the reason for a rejection: any larger fuel
-     gives the same answer), steps ≤ 8·|text| + 22 and recursion depth ≤ |text| + 1, where steps / depth are the cost
+     the VALUE does not depend on the fuel above `|text|` (`*_total` — by itself NOT a termination statement: a parser
+     spinning until the fuel is gone satisfies it too; what excludes spinning is the step bound below, which holds for
+     EVERY fuel, and `Props/C17Z.lean`, where the three-valued parsers are proved never to answer "out of fuel"),
+     steps ≤ 8·|text| + 22 and recursion depth ≤ |text| + 1, where steps / depth are the cost
      companions of `Model/Cost.lean` (stream method calls + calls of the recursive `read_from`s; checked on every run
      against a counting `BytesIO` and wrapped `read_from`s on the real code, op `c17.desc`).
      Hypothesis `NoEmptyKey ops`: the key decoder refuses the empty text — without it the argument loop of `multi(…)`
@@ -35,18 +37,20 @@ variable {K : Type}
 
 /-! ## 1. descriptor / miniscript / taptree -/
 
-/-- **`Miniscript.read_from` ends by itself**: with more fuel than characters left, the fuel does not matter -/
+/-- **`Miniscript.read_from`: with more fuel than characters left, the fuel does not matter for the value** (that it
+    is never used up: `C17Z.miniscript_never_out_of_fuel`) -/
 theorem miniscript_read_total (ops : KeyOps K) (hW : NoEmptyKey ops) (tap : Bool) (f1 f2 : Nat) (s : Stream)
     (h1 : s.rest.length < f1) (h2 : s.rest.length < f2) : readMs ops tap f1 s = readMs ops tap f2 s :=
   readMs_fuel ops hW tap f1 f2 s h1 h2
 
-/-- **`TapTree.read_from` ends by itself** -/
+/-- **`TapTree.read_from`: the same** (never used up: `C17Z.taptree_never_out_of_fuel`) -/
 theorem taptree_read_total (ops : KeyOps K) (hW : NoEmptyKey ops) (f1 f2 : Nat) (s : Stream)
     (h1 : s.rest.length < f1) (h2 : s.rest.length < f2) : readTapTree ops f1 s = readTapTree ops f2 s :=
   readTapTree_fuel ops hW f1 f2 s h1 h2
 
-/-- **`Descriptor.from_string` terminates on every text, accepted or rejected**: the fuel `|text| + 1` with which the
-    model (`Desc.parse`) runs the parser is never used up — every larger fuel gives the same result -/
+/-- **`Descriptor.from_string`: the result does not depend on the fuel** once it exceeds `|text|` (the model,
+    `Desc.parse`, uses `|text| + 1`). This is fuel-INDEPENDENCE of the value, not termination (audit2 A-3); that the
+    fuel is never used up is `C17Z.descriptor_parse3_never_out_of_fuel` / `descriptor_rejection_is_not_fuel` -/
 theorem descriptor_parse_total (ops : KeyOps K) (hW : NoEmptyKey ops) (text : Str) (fuel : Nat)
     (hf : text.length < fuel) :
     Desc.readFrom ops fuel (Stream.ofStr text) = Desc.readFrom ops (text.length + 1) (Stream.ofStr text) :=
